@@ -5,10 +5,12 @@ package main
 
 import (
 	"bufio"
+	"encoding/hex"
 	"encoding/json"
 	"flag"
 	"fmt"
 	"os"
+	"strings"
 )
 
 type stats struct {
@@ -56,21 +58,20 @@ func main() {
 	out = bufio.NewWriterSize(f, 1<<20)
 	defer out.Flush()
 
+	if *replay != "" {
+		replayFile(*replay)
+		out.Flush()
+		return
+	}
 	switch stream {
 	case "cpu1":
-		if *replay != "" {
-			cpuReplay(*replay)
-		} else {
-			cpu1(*seed, *n, *tier)
-		}
+		cpu1(*seed, *n, *tier)
+	case "dump":
+		dumpStream(*seed, *n)
 	case "cpuruns":
 		cpuRuns(*seed, *n)
 	case "mem04", "mem05", "mem06", "mem07":
-		if *replay != "" {
-			memReplay(*replay)
-		} else {
-			memStream(*seed, *n, int(stream[4]-'0'))
-		}
+		memStream(*seed, *n, int(stream[4]-'0'))
 	default:
 		fmt.Fprintln(os.Stderr, "unknown stream", stream)
 		os.Exit(2)
@@ -81,3 +82,49 @@ func main() {
 		os.WriteFile(*statFile, data, 0644)
 	}
 }
+
+// replayFile re-executes the request part of every line of a file (any verb)
+func replayFile(file string) {
+	data, err := os.ReadFile(file)
+	if err != nil {
+		fmt.Fprintln(os.Stderr, err)
+		os.Exit(2)
+	}
+	for _, line := range strings.Split(string(data), "\n") {
+		req := strings.TrimSpace(strings.SplitN(line, "=>", 2)[0])
+		f := strings.Fields(req)
+		if len(f) == 0 {
+			continue
+		}
+		switch f[0] {
+		case "run":
+			if c, ok := parseRequest(req); ok {
+				emit(c.request() + " => " + runGo(c))
+			}
+		case "mem":
+			memReplayLine(req)
+		case "dump":
+			if len(f) == 5 {
+				var s, e uint64
+				var k, c int
+				fmt.Sscanf(f[1], "%x", &s)
+				fmt.Sscanf(f[2], "%x", &e)
+				fmt.Sscanf(f[3], "%d", &k)
+				fmt.Sscanf(f[4], "%d", &c)
+				emit(dumpCase(uint16(s), uint16(e), k, c))
+			}
+		case "dumpspec":
+			if len(f) == 2 {
+				b, _ := hex.DecodeString(f[1])
+				emit(dumpSpecCase(string(b)))
+			}
+		default:
+			if fn, ok := replayers[f[0]]; ok {
+				fn(req)
+			}
+		}
+	}
+}
+
+// further verbs register their replay function here
+var replayers = map[string]func(req string){}
